@@ -5,6 +5,8 @@ mod compute_suite;
 mod graph_suite;
 mod hash_suite;
 mod refsem;
+mod validate_suite;
+mod codec_suite;
 mod vmops_suite;
 
 use std::sync::atomic::{AtomicUsize, Ordering};
@@ -57,7 +59,7 @@ pub fn esc(s: &str) -> String {
 fn main() {
     let args: Vec<String> = std::env::args().collect();
     if args.len() < 2 {
-        eprintln!("usage: xrun <hash|graph|compute|bytecode|vmops> [--tier quick|thorough] [--only <case>]");
+        eprintln!("usage: xrun <hash|graph|compute|bytecode|vmops|validate|codec> [--tier quick|thorough] [--only <case>]");
         std::process::exit(2);
     }
     let mut thorough = false;
@@ -99,6 +101,8 @@ fn main() {
         "compute" => "compute",
         "bytecode" => "bytecode",
         "vmops" => "vmops",
+        "validate" => "validate",
+        "codec" => "codec",
         _ => {
             eprintln!("unknown suite");
             std::process::exit(2);
@@ -114,6 +118,8 @@ fn main() {
         "compute" => compute_suite::run(&ctx),
         "bytecode" => bytecode_suite::run(&ctx),
         "vmops" => vmops_suite::run(&ctx),
+        "validate" => validate_suite::run(&ctx),
+        "codec" => codec_suite::run(&ctx),
         _ => unreachable!(),
     }));
     if r.is_err() {
